@@ -1,9 +1,9 @@
 TB_K = ["Kani 0.68.0", "CBMC 6.11.0", "cvc5 1.0.3", "CaDiCaL 3.0.0 / Kissat 4.0.1"]
 TB_V = ["Verus 0.2026.09.13 / Z3", "A2 f32 order axioms (cross-checked bit-precisely by Kani)", "A3 Easing::clone == identity"]
-ADUR = "A4': Duration::as_secs_f32 / from_secs_f32 are replaced in the animator harnesses by uninterpreted functions (monotone, 0 <-> ZERO); from_secs_f32(0)==ZERO is proved on std, monotonicity of as_secs_f32 is assumed (the word-level solver did not return in 300 s)"
+ADUR = "A4': Duration::as_secs_f32 / from_secs_f32 are replaced in the animator harnesses by uninterpreted functions (monotone, 0 <-> ZERO) over durations below 2^23 s (97 days); from_secs_f32(0)==ZERO is proved on std, monotonicity of as_secs_f32 on that domain is assumed (argued in verif_dur.rs; the solvers did not return in 300 s)"
 ATL = "timelines inside the animator / merged timeline are ARBITRARY values of the abstract contract TL (step function of time, shows substituted start values up to the delay, touches only its own properties); that generated timelines satisfy TL is C01/C08/C09/C10's business"
 P["C01"] = {"assumptions": [A["KANI"], A["FLOAT"], "V-R1: from_keyframes verified for &Vec<Keyframe> (the derive macro's call shape)", "value function pure", "interpolate_value enters route V as an uninterpreted function; its definition is the Kani-proved contract"],
-            "trusted_base": TB_V + TB_K, "not_decided": ["prepare_frame's binary search is verified for <=4 master keyframes (bounded); everything else is unbounded in the number of keyframes"]}
+            "trusted_base": TB_V + TB_K, "not_decided": ["prepare_frame's binary search is verified for 0,1,2,3,4,6,8,16 master keyframes (bounded); everything else is unbounded in the number of keyframes"]}
 P["C02"] = {"assumptions": [A["A1"], A["KANI"], A["FLOAT"]], "trusted_base": TB_K + TB_V,
             "not_decided": ["the chain interpolate_value = lerp(start,end,easing(frac)) ; frac endpoints ; easing(0)=0,easing(1)=1 ; lerp endpoints is four machine-checked contracts composed by substitution in DESIGN.md, not one machine-checked harness (the all-in-one harness did not return in 300 s)",
                             "float keyframe values: exact (0 ulp) for finite values is what is proved; integer types: exact for values exactly representable in f32"]}
@@ -15,8 +15,8 @@ P["C07"] = {"assumptions": [ADUR, ATL, A["A1"], A["KANI"]], "trusted_base": TB_K
             "not_decided": ["agreement of TimeScale::get_duration with the terminal test is proved for delay+span exact (class of f32 absorption excluded, see DESIGN.md section 4 C07)"]}
 P["C08"] = {"assumptions": [A["KANI"], A["A5"], "generated update assigns a field only if value_at returns Some (C17 harnesses)"], "trusted_base": TB_V + TB_K, "not_decided": []}
 P["C10"] = {"assumptions": [A["A1"], A["KANI"], A["FLOAT"]], "trusted_base": TB_V + TB_K, "not_decided": []}
-P["C11"] = {"assumptions": [A["KANI"]], "trusted_base": TB_K, "not_decided": ["bounded: <=3 keyframes (std sort executed with unwinding assertions); positions fully symbolic. Downstream, sorted distinct positions determine everything (C01 contracts take the sorted list)"]}
-P["C12"] = {"assumptions": [ATL, A["KANI"]], "trusted_base": TB_K, "not_decided": ["bounded: 0..3 components"]}
+P["C11"] = {"assumptions": [A["KANI"]], "trusted_base": TB_K, "not_decided": ["bounded: 0..5 and 7 keyframes (std sort executed with unwinding assertions); positions fully symbolic. Downstream, sorted distinct positions determine everything (C01 contracts take the sorted list)"]}
+P["C12"] = {"assumptions": [ATL, A["KANI"]], "trusted_base": TB_K, "not_decided": ["bounded: 0..5 components"]}
 P["C13"] = {"assumptions": [A["KANI"], A["FLOAT"], "lyon_geom's Bezier polynomial is executed, not assumed"], "trusted_base": TB_K,
             "not_decided": ["range [0,1] for OutSine, OutQuad, OutCubic, OutQuart, OutQuint, OutExpo (no result in 900-1500 s with Kissat); the other 20 non-Back curves are proved (8 in the quick tier, 12 in the thorough tier)", "monotonicity and In/Out point-mirror: harnesses were written (a(x)+b(1-x)=1 within 1e-5 for 6 pairs; calc(x)<=calc(y)+1e-6 for x<=y for 3 curves) and did not return within 1200 s each with Kissat, so they are not registered"]}
 P["C14"] = {"assumptions": [A["KANI"], A["FLOAT"]], "trusted_base": TB_K,
@@ -34,8 +34,8 @@ P["C17"] = {"assumptions": [A["KANI"], "rustc's expansion of derive(Animate) is 
 P["C09"] = {"assumptions": [A["A5"], A["KANI"], "generated update takes &self: no interior mutability in SubTimeline/TimeScale/generated struct (textual scan)"],
             "trusted_base": TB_K + TB_V, "not_decided": ["'independent of the order of queries' is by A5 (update cannot write to self) plus update's result being a function of (self, time) on the animated fields (update_contract: prior field content irrelevant)"]}
 
-for pid, why in (("C11", "bounded stand-in: TimelineBuilderArguments::from is verified by contract harnesses for 0..3 keyframes (std sort executed); positions and timing fully symbolic"),
-                 ("C12", "bounded stand-in: MergedTimeline is verified by contract harnesses for 0..3 arbitrary component timelines; Repeat's order is proved completely"),
+for pid, why in (("C11", "bounded stand-in: TimelineBuilderArguments::from is verified by contract harnesses for 0..5 and 7 keyframes (std sort executed); positions and timing fully symbolic"),
+                 ("C12", "bounded stand-in: MergedTimeline is verified by contract harnesses for 0..5 arbitrary component timelines; Repeat's order is proved completely"),
                  ("C17", "bounded over programs: contract harnesses on the real derive expansion for four struct shapes, every value symbolic; from_keyframes itself is proved for every size (Verus)")):
     P[pid]["level"] = "other"
     P[pid]["explanation"] = why
